@@ -16,7 +16,8 @@ VALUES = [('red', ['red']), ('1px', ['1px']), ('10px 20px', ['10px', '20px']), (
           ("'a\\'b'", ["'a\\'b'"]), ('url(a;b)', ['url(a;b)']), ('url(data:image/png;base64,AAA=)', ['url(data:image/png;base64,AAA=)']), ('lighten($c, 10%)', ['lighten($c, 10%)']),
           ('-webkit-box', ['-webkit-box']), ('0', ['0']), ('b c !important', ['b', 'c', '!important']), ('url("a)b")', ['url("a)b")']), ('fn(a (b c))', ['fn(a (b c))']),
           ('translate(calc(1px + 2px), 0) scale(2)', ['translate(calc(1px + 2px), 0)', 'scale(2)']), ('a(b(c) d) e', ['a(b(c) d)', 'e']), ('f(g(h(1, 2) 3), 4), 5', ['f(g(h(1, 2) 3), 4)', '5']),
-          ('1px\n  2px', ['1px', '2px']), ('a/b', ['a', 'b']), ('x(y) z(w (v)) u', ['x(y)', 'z(w (v))', 'u'])]
+          ('1px\n  2px', ['1px', '2px']), ('a/b', ['a', 'b']), ('x(y) z(w (v)) u', ['x(y)', 'z(w (v))', 'u']),
+          ('"it\'s };"', ['"it\'s };"']), ("'say \"}\" {'", ["'say \"}\" {'"]), ('"a\'" \'b"{\'', ['"a\'"', '\'b"{\''])]
 
 
 def tok_ranges(val, toks, base):
@@ -27,7 +28,7 @@ def tok_ranges(val, toks, base):
 
 
 # ------------------------------------------------------------------------------------------------- sheets with ground truth
-def gen_sheet(rnd, budget=10):
+def gen_sheet(rnd, budget=10, p_nest=.3, max_depth=3):
     """returns (source, items); item = dict(kind='rule'|'decl', start, end, ...) with children for rules.
     rule: start = selector start, brace = index of '{', close = index of '}', end = close+1
     decl: start = name start, nend = name end, colon, vstart, vend, semi = index of ';', end = semi+1"""
@@ -66,7 +67,7 @@ def gen_sheet(rnd, budget=10):
         ws(); comment()
         while budget_[0] > 0 and rnd.random() < .7:
             budget_[0] -= 1
-            if depth < 3 and rnd.random() < .3: r['kids'].append(rule(depth + 1))
+            if depth < max_depth and rnd.random() < p_nest: r['kids'].append(rule(depth + 1))
             else: r['kids'].append(decl())
             ws(); comment()
         r['close'] = pos[0]; emit('}'); r['end'] = pos[0]
@@ -99,6 +100,11 @@ def cases(tier, seed, prop):
     if prop == 'C10':
         n = 600 if tier == 'quick' else 10000
         while len(out) < n:
+            if rnd.random() < .25:
+                # deep trees: chains of nested rules that are not the first child of their parent, several top-level rules
+                s, items = gen_sheet(rnd, rnd.randint(8, 16), p_nest=.55, max_depth=5)
+                if len(s) > 420: continue
+                out.append({'s': s, 'g': 'deep-sheet', 'truth': items}); continue
             s, items = gen_sheet(rnd, rnd.randint(1, 8))
             if len(s) > 240: continue
             out.append({'s': s, 'g': 'sheet', 'truth': items})
